@@ -73,13 +73,23 @@ def run(ctx):
             ctx.violate("R1", f"{f.name}: open() is not dominated by the format selection", f, wst, construct="open before selection")
         if f is wi:
             continue
-        checks = [cs for cs in f.calls if chk in cs.callees]
+        helpers = {}
+        for cs in f.calls:
+            for g in cs.callees:
+                if g.module is f.module and g is not chk and cs.registry_op is None and g.parent is None:
+                    helpers[id(cs.node)] = (cs, g, _preflight_summary(prog, g, chk))
+        checks = [cs for cs in f.calls if chk in cs.callees] + [cs for cs, g, sm in helpers.values() if sm["check"]]
+        partial = [g.name for cs, g, sm in helpers.values() if not sm["check"] and any(chk in c2.callees for c2 in g.calls)]
         if checks and any(cfg.dominates(stmt_of(cs.node), onode) for cs in checks):
             ctx.ok("R1", f"{f.name}: required-attribute check dominates open()", f"{f.module.relpath}:{checks[0].node.lineno}")
         else:
-            ctx.violate("R1", f"{f.name}: open() is not dominated by the required-attribute check", f, wst, construct="open before _check_required")
+            ctx.violate("R1", f"{f.name}: open() is not dominated by the required-attribute check" + (f" (helper {partial[0]} performs it on some paths only)" if partial else ""), f, wst, construct="open before _check_required")
         preps = [cs for cs in f.calls if cs.registry_op == "prepare_dump"]
         okp = False
+        for cs, g, sm in helpers.values():
+            if sm["prepare"] and cfg.dominates(stmt_of(cs.node), onode):
+                okp = True
+                ctx.ok("R1", f"{f.name}: prepare_dump dispatch (in helper {g.name}, on all its paths) precedes and dominates open()", f"{f.module.relpath}:{cs.node.lineno}")
         for cs in preps:
             st = stmt_of(cs.node)
             # guarded by hasattr(format_module, "prepare_dump")
@@ -132,7 +142,7 @@ def run(ctx):
                 if isinstance(cur, ast.With):
                     inside_with = True
             body_calls = {cs.registry_op for cs in f.calls if cs.registry_op and any(cs.node is n for s in t.body for n in ast.walk(s))}
-            has_check = any(chk in cs.callees and any(cs.node is n for s in t.body for n in ast.walk(s)) for cs in f.calls)
+            has_check = any((chk in cs.callees or any(g.module is f.module and g.parent is None and cs.registry_op is None and (_preflight_summary(prog, g, chk)["check"] or _preflight_summary(prog, g, chk)["prepare"]) for g in cs.callees)) and any(cs.node is n for s in t.body for n in ast.walk(s)) for cs in f.calls)
 
             def handler_for(cls):
                 for h in t.handlers:
@@ -227,7 +237,25 @@ def run(ctx):
             chk_calls = [cs for cs in gcalls if chk in cs.callees and any(cs.node is n for s in body for n in ast.walk(s))]
             yields = [n for s in body for n in ast.walk(s) if isinstance(n, ast.Yield)]
             cond = [n for s in body for n in ast.walk(s) if isinstance(n, (ast.Continue, ast.Break, ast.Return))]
-            good = len(chk_calls) == 1 and len(yields) == 1 and not cond
+            helper_yield = None
+            if len(yields) == 1 and isinstance(yields[0].value, ast.Call) and not chk_calls and not cond:
+                for cs in gcalls:
+                    if cs.node is yields[0].value and cs.registry_op is None:
+                        for hh in cs.callees:
+                            if hh.module is g.module and hh is not chk:
+                                helper_yield = (cs, hh, _preflight_summary(prog, hh, chk))
+            if helper_yield is not None:
+                cs_h, hh, sm = helper_yield
+                b, e, okb = bind_call(cs_h.node, hh)
+                a = b.get(sm["data_param"]) if sm["data_param"] else None
+                if sm["check"] and sm["prepare"] and sm["returns_data"] and isinstance(a, ast.Name) and a.id == var:
+                    ctx.ok("R3", f"each later frame goes through helper {hh.name} (checks, then prepares on all its paths) and its result is yielded", f"{g.module.relpath}:{lp[0].lineno}")
+                else:
+                    miss = [k for k in ("check", "prepare") if not sm[k]]
+                    ctx.violate("R3", f"later frames are yielded through helper {hh.name}, which does not perform {' and '.join(miss) or 'the pre-flight on the loop variable'} on all its paths", g, lp[0], construct="checking loop")
+                good = None
+            else:
+                good = len(chk_calls) == 1 and len(yields) == 1 and not cond
             if good:
                 b, e, okb = bind_call(chk_calls[0].node, chk)
                 good = isinstance(b.get(chk.posparams[1]), ast.Name) and b[chk.posparams[1]].id == var
@@ -236,14 +264,23 @@ def run(ctx):
                 good = good and chk_calls[0].node.lineno <= ys.lineno and not any(chk_calls[0].node is n for n in ast.walk(ys))
                 yv = ys.value
                 prep = [cs for cs in gcalls if cs.registry_op == "prepare_dump" and any(cs.node is n for n in ast.walk(yv))]
-                if isinstance(yv, ast.IfExp):
+                hsum = None
+                if isinstance(yv, ast.Call):
+                    for cs in gcalls:
+                        if cs.node is yv and cs.registry_op is None:
+                            for hh in cs.callees:
+                                if hh.module is g.module and hh is not chk:
+                                    hsum = (hh, _preflight_summary(prog, hh, chk))
+                if hsum is not None:
+                    pass
+                elif isinstance(yv, ast.IfExp):
                     good = good and _is_hasattr(yv.test, "prepare_dump") and len(prep) == 1 and prep[0].node is yv.body and isinstance(yv.orelse, ast.Name) and yv.orelse.id == var
                     good = good and isinstance(prep[0].node.args[0], ast.Name) and prep[0].node.args[0].id == var
                 else:
                     good = False
             if good:
                 ctx.ok("R3", "each later frame: _check_required(frame) then yield prepare_dump(frame) (or the frame)", f"{g.module.relpath}:{lp[0].lineno}")
-            else:
+            elif good is not None:
                 ctx.violate("R3", "later frames are not (checked, then prepared, then yielded) one by one", g, lp[0], construct="checking loop")
             # the pre-checked first frame is yielded once before the loop
             firsty = [n for n in g.own_nodes() if isinstance(n, ast.Yield) and n not in yields]
@@ -307,6 +344,63 @@ def run(ctx):
     if check_guard_matrix is not None:
         ctx.rule("R5", "prepare_dump guard matrix", "a dropped guard lets an unsupported object through to a writer that mis-writes it or fails after truncation")
         check_guard_matrix(ctx, "R5")
+
+
+def _preflight_summary(prog, h, chk, depth=0):
+    """Summary of an API helper: {'check': every normal exit passes a _check_required call,
+    'prepare': every normal exit passes the hasattr-guarded prepare_dump dispatch,
+    'data_param': the parameter checked/prepared, 'returns_data': returns the prepared or the given object}."""
+    from ..cfg import EXIT
+
+    out = {"check": False, "prepare": False, "data_param": None, "returns_data": False}
+    if h is None or h is chk or depth > 2 or h.is_generator:
+        return out
+    cfg = cfg_of(h)
+    pm = prog.parents(h)
+
+    def stmt_of(node):
+        cur = node
+        while not isinstance(cur, ast.stmt):
+            cur = pm[id(cur)]
+        return cur
+
+    exits = [cfg.idx(n) for n in h.own_nodes() if isinstance(n, ast.Return)] + [a for a, lab in cfg.pred[EXIT] if lab not in ("return", "raise", "exc")]
+    if not exits:
+        return out
+    csites, dparams = set(), set()
+    for cs in h.calls:
+        if chk in cs.callees:
+            csites.add(cfg.idx(stmt_of(cs.node)))
+            b, e, okb = bind_call(cs.node, chk)
+            a = b.get(chk.posparams[1])
+            if isinstance(a, ast.Name):
+                dparams.add(a.id)
+        else:
+            for g in cs.callees:
+                if g.module is h.module and g is not h and cs.registry_op is None:
+                    sub = _preflight_summary(prog, g, chk, depth + 1)
+                    if sub["check"]:
+                        csites.add(cfg.idx(stmt_of(cs.node)))
+    out["check"] = bool(csites) and cfg.must_pass(exits, csites)
+    psites = set()
+    for cs in h.calls:
+        if cs.registry_op == "prepare_dump":
+            cur, guard = cs.node, None
+            while id(cur) in pm:
+                par = pm[id(cur)]
+                if isinstance(par, (ast.If, ast.IfExp)) and _is_hasattr(par.test, "prepare_dump") and (cur is par.body or (isinstance(par, ast.If) and any(cur is x for x in par.body))):
+                    guard = par
+                cur = par
+            if guard is not None:
+                psites.add(cfg.idx(stmt_of(guard) if isinstance(guard, ast.IfExp) else guard))
+                if cs.node.args and isinstance(cs.node.args[0], ast.Name):
+                    dparams.add(cs.node.args[0].id)
+    out["prepare"] = bool(psites) and cfg.must_pass(exits, psites)
+    if len(dparams) == 1 and next(iter(dparams)) in h.params:
+        out["data_param"] = next(iter(dparams))
+    rets = [n for n in h.own_nodes() if isinstance(n, ast.Return)]
+    out["returns_data"] = bool(rets) and all(r.value is not None for r in rets)
+    return out
 
 
 def _is_hasattr(test, name):
